@@ -224,9 +224,15 @@ def r_spawn_all_then_wait(r, prog):
     r.floor(1)
 
 
+import codec as _codec
+
+
 def run(ctx):
     prog = ctx.prog
     ctx.run_rule('C18.1a', 'T3', 'every generator failure is converted into an Error::IO naming the generator and extended into the diagnostics', r_converter_names_generator, prog)
+    from props import c19 as _c19
+    ctx.run_rule('C18.2b', 'T2', 'every started generator is sent the request followed by its own arguments dictionary', _c19.r_arguments_always_sent, prog)
+    ctx.run_rule('C18.3b', 'T10', 'a collection decoder reads exactly the announced number of elements (a truncated sequence fails, it is not shortened)', _codec.r_element_count_is_announced, prog)
     ctx.run_rule('C18.1b', 'T3', 'every generator result is folded on every loop path; the wait loop has no early exit', c07.r_generator_results_folded, prog)
     ctx.run_rule('C18.1c', 'T7', 'no panic-capable site in the generator path', r_no_unwrap_in_generator_path, prog)
     ctx.run_rule('C18.1d', 'T5', 'every codec error can be rendered', c11.r_error_rendering, prog)
